@@ -106,3 +106,68 @@ theorem kernel_C17 (cfg : Cfg) {α β} (p : Prog α) (q : Prog β) (s : List Cha
   exact ⟨rfl, rfl, rfl⟩
 
 end SasLexer
+
+namespace SasLexer
+
+/-! ## executable monitor of the side condition, and the model-level statement -/
+
+def sideOkB (o : Op) (L : Lexer) : Bool :=
+  match o with
+  | .pendingTextWithPrev => decide (1 ≤ L.tok.byte)
+  | .litResolve back => decide (back ≤ L.curByte)
+  | _ => true
+
+theorem sideOkB_iff (o : Op) (L : Lexer) : sideOkB o L = true ↔ SideOk o L := by
+  cases o <;> simp [sideOkB, SideOk]
+
+/-- runs the program like `Prog.run` and reports whether every executed primitive met its side
+condition -/
+def sideOkRun (cfg : Cfg) {α} : Prog α → Lexer → Bool
+  | .ret _, _ => true
+  | .op o k, L =>
+    sideOkB o L &&
+      (match (step cfg o L).2.panicked with
+       | some _ => true
+       | none => sideOkRun cfg (k (step cfg o L).1) (step cfg o L).2)
+
+theorem sideOkRun_sound (cfg : Cfg) {α} (p : Prog α) : ∀ L, sideOkRun cfg p L = true → RunOk cfg p L := by
+  induction p with
+  | ret a => intro L _; trivial
+  | op o k ih =>
+    intro L h
+    unfold sideOkRun at h
+    simp only [Bool.and_eq_true] at h
+    refine ⟨(sideOkB_iff o L).mp h.1, ?_⟩
+    intro hp
+    have := h.2
+    rw [hp] at this
+    exact ih _ _ this
+
+/-- the side condition on the two programs of the modelled lexer for source `s` -/
+def lexSideOk (cfg : Cfg) (s : List Char) : Bool :=
+  let L0 := Lexer.new cfg s
+  let p := mainLoop cfg (budgetMul * L0.srcLen + 64) 0 (L0.srcLen, [.default])
+  sideOkRun cfg p L0 && sideOkRun cfg (finalizeLexing cfg) (Prog.run cfg p L0).2
+
+/-- **C17 for the modelled control logic, partial**: for the main-loop and finalisation programs
+that the model runs on `s` (fixed fuel and initial detector memory), the run on `BOM :: s` of the
+*same* two programs is the shifted run — whenever the monitored side condition holds on `s`.
+(What is missing for `C17_statement`: the model picks fuel `8·len + 64` and the initial
+`last_state` from the source length, which differ by the BOM's 3 bytes between the two sources;
+that the result does not depend on them is the termination argument of C01.) -/
+theorem C17_model_partial (cfg : Cfg) (s : List Char) (h : s.head? ≠ some BOM) (hok : lexSideOk cfg s = true) :
+    let L0 := Lexer.new cfg s
+    let p := mainLoop cfg (budgetMul * L0.srcLen + 64) 0 (L0.srcLen, [.default])
+    (runThenDetach cfg p (finalizeLexing cfg) (BOM :: s)).1
+      = shiftD bomShift (runThenDetach cfg p (finalizeLexing cfg) s).1 := by
+  intro L0 p
+  unfold lexSideOk at hok
+  simp only [Bool.and_eq_true] at hok
+  exact (kernel_C17 cfg p (finalizeLexing cfg) s h (sideOkRun_sound cfg p _ hok.1)
+    (sideOkRun_sound cfg _ _ hok.2)).1
+
+/-- non-vacuity: the side condition holds on an input that exercises both saturating primitives
+(a double-quoted hex literal and an escaped single-quoted literal) -/
+example : lexSideOk ⟨true, true, false⟩ "x=\"41\"x 'a''b' %str(%');".toList = true := by decide +kernel
+
+end SasLexer
